@@ -1114,9 +1114,7 @@ func (e *env) blocked(what string) {
 // hasNew: an unclassified oracle failure or a model disagreement has been recorded — the verdict of the run is
 // settled, the remaining (real-time) scenarios are skipped so that the failing input is reported quickly.
 func (e *env) hasNew() bool {
-	if len(e.r.Disagreements) > 0 {
-		return true
-	}
+	// (a model disagreement alone does not stop the run: the later scenarios may still produce the concrete failing input)
 	for _, f := range e.r.OracleFailures {
 		if f.Sig == "" {
 			return true
